@@ -62,6 +62,16 @@ def names_trace(ctx):
                 _, tf = tr.transform(X[:4].copy(), yf.copy())
                 _, bf = inv.transform(X[:4].copy(), tf)
                 e["roundtrip"] = bool(e["roundtrip"] and numpy.allclose(bf[:3], yf[:3], rtol=1e-9, atol=0) and numpy.isnan(bf[3]))
+            # the hyper-parameter is changed after the fit and the transformer is not fitted again: whatever it applies
+            # now, the transformer returned by get_fct_inv still undoes it
+            for other in sorted(F.available_fcts()):
+                if other == name:
+                    continue
+                tr.set_params(fct=other)
+                _, t2 = tr.transform(X.copy(), y.copy())
+                _, b2 = tr.get_fct_inv().transform(X.copy(), t2)
+                e["roundtrip"] = bool(e["roundtrip"] and numpy.allclose(b2[:4], y[:4], rtol=1e-9, atol=0) and numpy.isnan(b2[4]))
+                tr.set_params(fct=name)
         except Exception as ex:
             e["inv"] = "error: " + repr(ex)[:60]
         table.append(e)
